@@ -249,6 +249,9 @@ func (cr *CheckRun) CheckCorpusCompiles(corpusDir string) {
 	entries = append(entries, CorsCorpus(corpusDir, cr.Tier)...)
 	entries = append(entries, BaseFormCorpus(corpusDir)...)
 	entries = append(entries, FixtureCorpus(cr.Repo)...)
+	entries = append(entries, ParamCorpus(corpusDir)...)
+	entries = append(entries, ResponseCorpus(corpusDir)...)
+	entries = append(entries, JSONCorpus(cr.VerifDir)...)
 	type res struct {
 		name string
 		gen  error
